@@ -65,3 +65,91 @@ Proof.
   - rewrite (NP_msteps _ _ Hms). apply NP_init.
   - apply (inv_msteps _ _ Hms g_init). apply inv_init; auto.
 Qed.
+
+(* ---- safety ---- *)
+Lemma quietw_quiet_p c g i : Inv c g -> (i < NP c)%nat -> quietw (P c i) -> quiet_p (P c i).
+Proof.
+  intros HI Hi (Hb & Hf & Hp). destruct (I_loc _ _ HI i Hi) as (_ & _ & _ & _ & Hz & _). destruct (Hz Hb).
+  unfold quiet_p. repeat split; auto. unfold busy_or_nr in Hb. destruct (st (P c i)); try discriminate; auto.
+Qed.
+
+Theorem safety N sched : (1 <= N)%nat ->
+  let c := run (init N) sched in
+  (exists i, (i < N)%nat /\ st (P c i) = TERM) ->
+  (forall j, (j < N)%nat -> quiet_p (P c j)) /\ total_sent c = total_recv c /\ total_flight c = 0.
+Proof.
+  intros HN c (i & Hi & Ht).
+  destruct (reach_inv N c HN) as (HNP & g & HI); [exists sched; reflexivity|].
+  assert (Hq : forall j, (j < NP c)%nat -> quietw (P c j)).
+  { apply (I_T _ _ HI). exists i. rewrite HNP. split; auto. unfold cls. rewrite Ht. reflexivity. }
+  assert (Hfl : total_flight c = 0).
+  { unfold total_flight. rewrite !sumf_bsum. fold (NP c).
+    rewrite (bsum_ext _ _ (fun _ => 0)), (bsum_ext _ (fun i => inproc _) (fun _ => 0)); [rewrite bsum_zero; lia| |];
+      intros j Hj; apply (Hq j Hj). }
+  split; [|split; auto].
+  - intros j Hj. apply (quietw_quiet_p c g); auto; rewrite ?HNP; auto. apply Hq. lia.
+  - pose proof (I_cons _ _ HI) as Hc. unfold total_sent, total_recv, total_flight in *. rewrite !sumf_bsum in *. fold (NP c) in *.
+    unfold P in Hc. lia.
+Qed.
+
+Theorem conservation N sched : (1 <= N)%nat ->
+  let c := run (init N) sched in total_sent c = total_recv c + total_flight c.
+Proof.
+  intros HN c. destruct (reach_inv N c HN) as (HNP & g & HI); [exists sched; reflexivity|].
+  pose proof (I_cons _ _ HI) as Hc. unfold total_sent, total_recv, total_flight. rewrite !sumf_bsum. fold (NP c). unfold P in Hc. lia.
+Qed.
+
+(* a DOWN message exists only for a process that waits for its parent; DOWN(true) only for an idle one *)
+Theorem down_only_to_waiting N sched s j b : (1 <= N)%nat ->
+  let c := run (init N) sched in
+  In (s, j, DOWN b) (net c ++ dlyq c) ->
+  (j < N)%nat /\ (st (P c j) = BWP \/ st (P c j) = IWP) /\ (b = true -> st (P c j) = IWP).
+Proof.
+  intros HN c Hin. destruct (reach_inv N c HN) as (HNP & g & HI); [exists sched; reflexivity|].
+  fold (pool c) in Hin. pose proof (I_pkt _ _ HI _ Hin) as Hok. unfold pkt_ok, msg, src, dst in Hok. cbn [fst snd] in Hok.
+  destruct Hok as (J0 & JN & _). rewrite HNP in JN. split; auto.
+  pose proof (I_edge _ _ HI j ltac:(lia)) as HE.
+  assert (Hc2 : cls (P c j) = 2 /\ (b = true -> cls (P c (parent j)) = 3)).
+  { destruct b.
+    - assert (1 <= dT c j) by (unfold dT; apply (in_pool_cnt _ c _ Hin); unfold downTto, dst, msg; cbn; rewrite Nat.eqb_refl; auto).
+      destruct (edge_dT_inv c g j HE H) as (A & _ & _ & B). auto.
+    - assert (1 <= dF c j) by (unfold dF; apply (in_pool_cnt _ c _ Hin); unfold downFto, dst, msg; cbn; rewrite Nat.eqb_refl; auto).
+      destruct (edge_dF_inv c g j HE H) as (A & _). split; auto. discriminate. }
+  destruct Hc2 as [H2 H3]. split.
+  - unfold cls in H2. destruct (st (P c j)); try lia; auto.
+  - intros Hb. pose proof (parent_lt j J0).
+    assert (Hq : quietw (P c j)).
+    { apply (I_T _ _ HI); [|lia]. exists (parent j). split; [lia|auto]. }
+    destruct Hq as (Hq & _). unfold cls in H2. unfold busy_or_nr in Hq. destruct (st (P c j)); try lia; try discriminate; auto.
+Qed.
+
+Theorem callback_at_most_once N sched i : (1 <= N)%nat -> (i < N)%nat ->
+  let c := run (init N) sched in cbs (P c i) = (if is_term (P c i) then 1 else 0).
+Proof.
+  intros HN Hi c. destruct (reach_inv N c HN) as (HNP & g & HI); [exists sched; reflexivity|].
+  destruct (I_loc _ _ HI i ltac:(lia)) as (_ & _ & _ & _ & _ & Hc). rewrite Hc. unfold cls, is_term. destruct (st (P c i)); reflexivity.
+Qed.
+
+(* ---- counters only grow ---- *)
+Lemma P_mkC_lset ps nt dq i q j : P (mkC (lset ps i q) nt dq) j = if ((j =? i)%nat && (i <? length ps)%nat)%bool then q else nth j ps p0.
+Proof.
+  destruct (i <? length ps)%nat eqn:E.
+  - apply Nat.ltb_lt in E. rewrite P_lset by auto. rewrite andb_true_r. reflexivity.
+  - rewrite andb_false_r. unfold P. cbn [procs]. apply Nat.ltb_ge in E. unfold lset.
+    rewrite firstn_all2, skipn_all2 by lia.
+    destruct (Nat.lt_ge_cases j (length ps)); [rewrite app_nth1 by lia; auto|].
+    rewrite !nth_overflow; auto. rewrite app_length. cbn. lia.
+Qed.
+
+Lemma mstep_monotone c c' : mstep c c' -> forall j, sent (P c j) <= sent (P c' j) /\ recv (P c j) <= recv (P c' j).
+Proof.
+  intros Hm j. destruct Hm; unfold setp; rewrite ?P_mkC_lset; unfold NP in *; try (cbn [P procs]; lia).
+  all: repeat match goal with |- context[if ?b then _ else _] => destruct b eqn:? end;
+       repeat match goal with H : (_ && _)%bool = true |- _ => apply andb_true_iff in H; destruct H end;
+       repeat match goal with H : (_ =? _)%nat = true |- _ => apply Nat.eqb_eq in H; subst end;
+       unfold P in *; cbn [procs] in *; try lia.
+  all: try (unfold busyfix, rstart_p, up_p, downT_p, downF_p; cbn;
+            repeat match goal with |- context[if ?b then _ else _] => destruct b eqn:? end; cbn; try lia;
+            match goal with |- context[st ?p] => destruct (st p); cbn; lia end).
+  all: try (unfold send_up; destruct i; cbn; repeat match goal with |- context[if ?b then _ else _] => destruct b eqn:? end; cbn; lia).
+Qed.
